@@ -10,6 +10,7 @@ literal of a level for which an ignore declaration is in force becomes `lit << I
 import re
 
 SUFFIX = re.compile(r'__\d+\b')
+HELPERS = re.compile(r'\b(hlp|hlq)\b')
 
 
 def _declares_ignore(level):
@@ -67,6 +68,8 @@ def flatten(levels, i, reading='late'):
     # with the skip flag) instead of `lit << Ig` wrappers, whose partial-success flags differ.
     native = bool(ig_levels) and ig_levels[0] == 0 and reading == 'late'
 
+    helper_levels = {j for j, lv in enumerate(levels) if any(it['k'] == 'py' and it.get('helper') for it in lv['items'])}
+
     def in_force(j):
         return any(l <= j for l in ig_levels)
 
@@ -112,7 +115,8 @@ def flatten(levels, i, reading='late'):
         if k in ('sep', 'sept', 'left', 'right'):
             return [k, ren(e[1], j, bound), ren(e[2], j, bound)]
         if k in ('apply', 'where'):
-            return [k, ren(e[1], j, bound), e[2]]
+            # inline Python of a rule sees the helpers of the grammar the rule is written in
+            return [k, ren(e[1], j, bound), HELPERS.sub(lambda m: '%s__%d' % (m.group(1), j), e[2]) if j in helper_levels else e[2]]
         if k in ('hookv', 'hookp'):
             return [k, e[1], ren(e[2], j, bound)]
         if k == 'let':
@@ -126,6 +130,10 @@ def flatten(levels, i, reading='late'):
         raise ValueError(k)
 
     items = []
+    for j, lv in enumerate(levels):
+        for it in lv['items']:
+            if it['k'] == 'py' and it.get('helper'):
+                items.append({'k': 'py', 'code': HELPERS.sub(lambda m: '%s__%d' % (m.group(1), j), it['code'])})
     # the entry: the module's start rule is its own, else the nearest ancestor's
     # the module's start rule: its own first rule called start in any case, else the nearest
     # ancestor's (rule names are case-sensitive, the recognition of the start rule is not)
